@@ -18,6 +18,7 @@ import (
 	netty "github.com/go-netty/go-netty"
 	"github.com/go-netty/go-netty/codec/format"
 	"github.com/go-netty/go-netty/codec/frame"
+	"github.com/go-netty/go-netty/transport"
 	"github.com/go-netty/go-netty/utils/pool/pbuffer"
 	"github.com/go-netty/go-netty/utils/pool/pbytes"
 	"github.com/go-netty/go-netty/zz_verif/explore"
@@ -41,6 +42,12 @@ func raceKey(r vsched.Race) string {
 	a, b := fn(r.First), fn(r.Later)
 	if a > b {
 		a, b = b, a
+	}
+	// the library's buffering wrapper flushes its bufio.Writer inside Close: accesses made by the goroutine
+	// that runs Channel.Close are keyed separately (they are the wrapper-level face of the recorded
+	// transport.Close-vs-write finding; races between writers / flushes / reads are not)
+	if strings.Contains(r.Loc, "bufio") && (strings.HasSuffix(r.First, ":Close") || strings.HasSuffix(r.Later, ":Close")) {
+		return fmt.Sprintf("race/transport.Close on the buffering wrapper/%s/%s~%s", r.Loc, a, b)
 	}
 	return fmt.Sprintf("race/%s/%s~%s", r.Loc, a, b)
 }
@@ -107,12 +114,16 @@ type ccase struct {
 	Cfg    hlib.ChanCfg `json:"cfg"`
 	Ops    []string     `json:"ops"`
 	Unsafe bool         `json:"unsafe_transport"` // transport write side is plain memory (write-buffered wrapper)
+	Wrap   hlib.Wrap    `json:"wrap"`             // the library's real buffering wrapper between channel and mock connection
 }
 
 func chanScenario(cc ccase, bound int) *explore.Scenario {
 	name := fmt.Sprintf("channel/%s/%s", cc.Cfg, strings.Join(cc.Ops, "||"))
 	if cc.Unsafe {
 		name += "/write-buffered-transport"
+	}
+	if cc.Wrap != (hlib.Wrap{}) {
+		name += "/" + cc.Wrap.String()
 	}
 	return &explore.Scenario{
 		Name:          name,
@@ -127,11 +138,21 @@ func chanScenario(cc ccase, bound int) *explore.Scenario {
 			e.T.In = [][]byte{[]byte("in")}
 			e.PL = netty.NewPipeline()
 			e.PL.AddLast(sinkH{})
-			e.Ch = cc.Cfg.Factory()(1, context.Background(), e.PL, e.T, netty.AsyncExecutor())
+			var tr transport.Transport = e.T
+			if cc.Wrap != (hlib.Wrap{}) {
+				e.T.Wrapped = true
+				tr = transport.NewTransport(e.T, cc.Wrap.R, cc.Wrap.W)
+			}
+			e.Ch = cc.Cfg.Factory()(1, context.Background(), e.PL, tr, netty.AsyncExecutor())
 			e.PL.ServeChannel(e.Ch)
 			var ths []*vsched.Thread
 			for i, op := range cc.Ops {
 				i, op := i, op
+				if op == "PeerSends" {
+					// inbound data arrives while the other goroutines write: the read loop is inside the wrapper's Read
+					ths = append(ths, vsched.Go(fmt.Sprintf("g%d:%s", i, op), func() { e.T.Feed([]byte("more")) }))
+					continue
+				}
 				ths = append(ths, vsched.Go(fmt.Sprintf("g%d:%s", i, op), func() { doOp(e.Ch, op, i+1) }))
 			}
 			for _, t := range ths {
@@ -161,6 +182,8 @@ func bootScenario(bc bcase, bound int) *explore.Scenario {
 			mk := func(ch netty.Channel) { ch.Pipeline().AddLast(sinkH{}) }
 			bs := netty.NewBootstrap(netty.WithTransport(f), netty.WithChildInitializer(mk), netty.WithClientInitializer(mk))
 			l := bs.Listen("mock://h:1")
+			sharedOpts := make([]transport.Option, 1, 4)
+			sharedOpts[0] = transport.WithAttachment("shared")
 			var ths []*vsched.Thread
 			for i, op := range bc.Ops {
 				i, op := i, op
@@ -174,6 +197,11 @@ func bootScenario(bc bcase, bound int) *explore.Scenario {
 						bs.Shutdown()
 					case "Connect":
 						bs.Connect("mock://c:2")
+					case "Connect(shared options)":
+						// the usual way to configure several connections alike: one option slice (with spare capacity) reused
+						bs.Connect(fmt.Sprintf("mock://c:%d", 2+i), sharedOpts...)
+					case "Listen(shared options)":
+						bs.Listen(fmt.Sprintf("mock://h3:%d", i), sharedOpts...).Async(func(error) {})
 					case "Listen2":
 						bs.Listen(fmt.Sprintf("mock://h2:%d", i)).Async(func(error) {})
 					}
@@ -346,11 +374,19 @@ func main() {
 				for _, unsafe := range []bool{false, true} {
 					for i := 0; i < len(opNames); i++ {
 						for j := i; j < len(opNames); j++ {
-							ccs = append(ccs, ccase{cfg, []string{opNames[i], opNames[j]}, unsafe})
+							ccs = append(ccs, ccase{Cfg: cfg, Ops: []string{opNames[i], opNames[j]}, Unsafe: unsafe})
 						}
 					}
 					for _, tr := range [][]string{{"Write1", "Close", "Writev"}, {"Channel.Write", "Close", "Trigger"}, {"CtxWrite1", "Close", "Close"}, {"ReadFrom", "Write1", "Close"}} {
-						ccs = append(ccs, ccase{cfg, tr, unsafe})
+						ccs = append(ccs, ccase{Cfg: cfg, Ops: tr, Unsafe: unsafe})
+					}
+				}
+			}
+			// the real buffering wrappers: inbound data arriving while goroutines write (and close)
+			for _, cfg := range []hlib.ChanCfg{{0, false}, {2, true}} {
+				for _, w := range []hlib.Wrap{{16, 16}, {0, 16}, {16, 0}} {
+					for _, ops := range [][]string{{"PeerSends", "Write1"}, {"PeerSends", "Writev"}, {"PeerSends", "Channel.Write", "Write1"}, {"PeerSends", "Write1", "Close"}} {
+						ccs = append(ccs, ccase{Cfg: cfg, Ops: ops, Wrap: w})
 					}
 				}
 			}
@@ -361,7 +397,8 @@ func main() {
 					bcs = append(bcs, bcase{[]string{bops[i], bops[j]}})
 				}
 			}
-			bcs = append(bcs, bcase{[]string{"Async", "Listener.Close", "Shutdown"}}, bcase{[]string{"Connect", "Connect", "Shutdown"}})
+			bcs = append(bcs, bcase{[]string{"Async", "Listener.Close", "Shutdown"}}, bcase{[]string{"Connect", "Connect", "Shutdown"}},
+				bcase{[]string{"Connect(shared options)", "Connect(shared options)"}}, bcase{[]string{"Listen(shared options)", "Listen(shared options)"}}, bcase{[]string{"Connect(shared options)", "Listen(shared options)"}})
 			if tier == "thorough" {
 				bcs = append(bcs, bcase{[]string{"Async", "Shutdown", "Connect"}})
 			}
